@@ -49,6 +49,7 @@ type FuncContract struct {
 	Loops                   map[int]*LoopSpec
 	Split                   *SplitSpec
 	Trusted                 bool     // body not verified: the contract is an assumption
+	Transfers               []SExpr  // ownership tokens handed to the new goroutine by a go statement
 	Uses                    []string // lemmas assumed (universally quantified) in this unit
 	Constructs              string
 	Refines                 []string // interface types whose method contract this method is checked against
@@ -563,6 +564,17 @@ func (cs *Contracts) LoadFile(path, pkgPath string, fromRepo bool) error {
 			// constructs pkg.Interface : the first result is an object whose interface-level ghost view
 			// (ghost fields with `abstracts` declarations) the postconditions describe
 			cur.Constructs = sf.expandKey(rest)
+		case "transfers":
+			// transfers gv[e] : when the function is started with `go`, the spawning goroutine gives up
+			// the ownership token gv[e] (a ghost array variable of booleans) - it becomes false there
+			ex, err := parseSpecExpr(rest)
+			if err != nil {
+				return errf("transfers: " + err.Error())
+			}
+			if _, ok := ex.(*SIndex); !ok {
+				return errf("transfers: expected ghostvar[index]")
+			}
+			cur.Transfers = append(cur.Transfers, ex)
 		case "uses":
 			// uses lemma_name[, lemma_name] : the lemma (proved on its own) is available as a quantified fact
 			for _, n := range strings.Split(rest, ",") {
